@@ -393,6 +393,10 @@ def _child_scenario(note_fd, sc, scdir):
     if pre == "sentinel":
         with open(out, "wb") as fh:
             fh.write(SENTINEL)
+    elif pre == "directory":
+        os.makedirs(out)
+        with open(os.path.join(out, "keep.txt"), "wb") as fh:
+            fh.write(SENTINEL)
     elif pre in ("symlink", "dangling", "hardlink"):
         # the output path is a link: to an existing file elsewhere (a failed run must
         # leave link and target alone), to a file that does not exist yet (a failed run
@@ -946,7 +950,7 @@ def trigger_scenarios(quick=False):
     T = []
     count = [0]
 
-    def t(name, cfg, note="", faults=None):
+    def t(name, cfg, note="", faults=None, force_pre=None):
         pres = ("absent", "sentinel", {"run": CFGS["hid-amber"]}, "symlink", "dangling",
                 "hardlink")
         entries = ("run_pdb2pqr", "cli", "cli_module")
@@ -958,11 +962,13 @@ def trigger_scenarios(quick=False):
             combos = [(k % 3, k % 3), ((k + 1) % 3, (k + 2) % 3)]
             if k % 4 == 0:
                 combos.append((3 + (k // 4) % 3, (k // 4) % 3))
+        if force_pre:
+            combos = [(0, e) for e in range(3)]
         for pi, ei in combos:
             run = {"cfg": cfg, "entry": entries[ei], "expect": "fail", "want_ref": False}
             if faults:
                 run["faults"] = faults
-            sc = {"tag": "trigger", "name": name, "pre": pres[pi], "runs": [run]}
+            sc = {"tag": "trigger", "name": name, "pre": force_pre or pres[pi], "runs": [run]}
             if ei:
                 lvl = (None, "ERROR", "DEBUG", "CRITICAL", "WARNING")[(k + ei + pi) % 5]
                 if lvl:
@@ -1093,6 +1099,9 @@ def trigger_scenarios(quick=False):
                                   files={"userff": "<dir>", "usernames": "custom.names"}))
     t("usernames-is-directory", dict(base, argv=["--userff={userff}", "--usernames={usernames}"],
                                      files={"userff": "custom-ff.dat", "usernames": "<dir>"}))
+    # the output path names an existing directory: nothing can be written there
+    t("output-is-directory", dict(base, argv=amber), force_pre="directory")
+    t("output-is-directory:clean", dict(base, argv=["--clean"]), force_pre="directory")
     t("ligand-is-directory", dict(base, argv=["--ff=AMBER", "--ligand={ligand}"],
                                   files={"ligand": "<dir>"}))
     t("neutraln-with-tyl06", dict(base, argv=["--ff=TYL06", "--neutraln"]))
